@@ -19,7 +19,7 @@ that returns to its caller: the caller's later effects are after it, its earlier
 """
 from .lib.effects import Link
 from .lib.guards import conditions
-from .lib.value import walk, OK_PRESERVING
+from .lib.value import walk, OK_PRESERVING, subst as _subst_value
 
 CALL_ONCE = ('std::ops::FnOnce::call_once', 'std::ops::Fn::call', 'std::ops::FnMut::call_mut')
 MAP_LIKE = ('std::result::Result::<T, E>::map', 'std::option::Option::<T>::map')
@@ -50,7 +50,36 @@ def apply_fn(sl, f, args):
         last = f[1].rsplit('::', 1)[-1]
         if last in CTOR and f[1].startswith(('std::', 'core::')) and len(args) == 1:
             return ('agg', CTOR[last], last, (('0', args[0]),))
-    return sl.apply_closure(f, tuple(args))
+    r = sl.apply_closure(f, tuple(args))
+    if r is None or f[0] != 'closure':
+        return r
+    # `|mut x| { x.f = v; x }`: a by-value parameter updated in place is, where it is read afterwards, the argument with
+    # those fields replaced — the same ('updated', base, fields) the slicer records for `let mut x = arg; x.f = v; x`
+    # (the slicer itself only records field assignments of locals that have a whole definition)
+    g = sl.prog.fns.get(f[1])
+    if g is None or sl._sym is None:
+        return r
+    m0 = {(g.path, 1 + i): a for i, a in enumerate(args)}
+    for i, uv in enumerate(f[2]):
+        m0[('upvar', g.path, i)] = uv
+    m, changed = dict(m0), False
+    for i, a in enumerate(args):
+        local = 2 + i
+        if local > g.argc or g.whole_defs(local):
+            continue
+        ups = []
+        for dd in g.partial_defs(local):
+            kind, bi, si, rv, pl = dd
+            if kind != 'stmt' or any(p == '*' or not p.startswith('.') for p in pl[1:]):
+                ups = None
+                break
+            ups.append((''.join(pl[1:]), _subst_value(sl._sym._rvalue(g, rv, set(), 0, (bi, si)), m0, sl)))
+        if ups:
+            m[(g.path, 1 + i)] = ('updated', a, tuple(ups))
+            changed = True
+    if not changed:
+        return r
+    return _subst_value(sl._sym.local(g, 0), m, sl)
 
 
 def norm(sl, v, d=0):
@@ -145,6 +174,159 @@ def decided(sl, cond, subj):
     return None
 
 
+# ---- loops that are tail calls ------------------------------------------------------------------------------------------
+_RESTART_DOC = """`fn f(a) { match step(a) { Again => f(a), .. } }` and `fn f(a) { loop { match step(a) { Again => continue, .. } } }`
+run the same sequence of calls when nothing but the (unmodified) arguments lives across an iteration.  Such a loop is read
+as what it is equivalent to: every back edge is a success site whose value is "f called again with the same arguments"
+(('recursion', f) — the value the recursive spelling gets), and the calls that can precede a site are taken within one
+iteration.  The equivalence is checked on the facts (`restart_loops`):
+
+  natural loop   the header dominates every latch, the latch has no other successor, the header is not inside another cycle
+  idle prefix    the blocks before the header contain no call / drop / branch (only constant initialisations)
+  no state       no local is live at the header (read on some path from it before being assigned as a whole) except
+                 parameters and prefix-defined locals that are never assigned, never mutably borrowed and never have their
+                 address taken anywhere in the function — so an iteration starts in the state the function starts in
+"""
+from .lib.mir import _rvalue_places, op_place as _op_place
+from .lib.effects import Site as _Site
+
+_KNOWN_RVALUES = ('use', 'cast', 'un', 'repeat', 'ref', 'cfd', 'rawptr', 'discr', 'bin', 'agg')
+
+
+def _gen_kill(fn, bi):
+    """(locals read in block bi before being assigned as a whole, locals assigned as a whole) or None when the block holds
+    something this cannot read"""
+    gen, kill = set(), set()
+    b = fn.blocks[bi]
+
+    def use(pl):
+        if pl is None:
+            return True
+        if any(isinstance(p, str) and p.startswith('[') for p in pl[1:]):
+            return False
+        if pl[0] not in kill:
+            gen.add(pl[0])
+        return True
+
+    def define(pl):
+        if len(pl) == 1:
+            kill.add(pl[0])
+            return True
+        if any(isinstance(p, str) and p.startswith('[') for p in pl[1:]):
+            return False
+        if '*' in pl[1:]:
+            return use(pl)
+        return True
+    for s in b['s']:
+        if s[0] == '=':
+            if s[2].get('r') not in _KNOWN_RVALUES:
+                return None
+            for pl, how in _rvalue_places(s[2]):
+                if not use(pl):
+                    return None
+            if not define(s[1]):
+                return None
+    t = b['t']
+    k = t['t']
+    if k in ('call', 'tailcall'):
+        for a in t.get('args', []):
+            if not use(_op_place(a)):
+                return None
+        if not use(_op_place(t['f'])):
+            return None
+        if t.get('dest') is not None and not define(t['dest']):
+            return None
+    elif k in ('switch', 'assert'):
+        if not use(_op_place(t['o'])):
+            return None
+    elif k == 'drop':
+        if not use(t['p']):
+            return None
+    elif k not in ('goto', 'ret', 'unreachable', 'resume'):
+        return None
+    return gen, kill
+
+
+def _live_in(fn, h):
+    """locals live on entry to block h (normal edges), or None"""
+    blocks = fn.reachable(h)
+    gk = {}
+    for b in blocks:
+        r = _gen_kill(fn, b)
+        if r is None:
+            return None
+        gk[b] = r
+    live = {b: set(gk[b][0]) for b in blocks}
+    changed = True
+    while changed:
+        changed = False
+        for b in blocks:
+            out = set()
+            for s in fn.succs(b):
+                out |= live.get(s, set())
+            new = gk[b][0] | (out - gk[b][1])
+            if new != live[b]:
+                live[b] = new
+                changed = True
+    return live[h]
+
+
+def _never_changes(fn, x, prefix):
+    """local x keeps, from the loop header on, the value it has when the header is first reached"""
+    if any(d[1] not in prefix for d in fn.whole_defs(x)) or any(d[1] not in prefix for d in fn.partial_defs(x)):
+        return False
+    if not (1 <= x <= fn.argc) and not fn.whole_defs(x):
+        return False
+    for bi, kind, idx, how, pl in fn.uses_of(x):
+        if how in ('refmut', 'rawptr'):
+            return False
+    return True
+
+
+def restart_loops(sl, fn):
+    """{latch block: header} for the loops of fn that are equivalent to fn calling itself with the same arguments"""
+    c = _cache(sl)
+    key = ('restart', fn.path)
+    if key in c:
+        return c[key]
+    out = {}
+    c[key] = out
+    reach0 = fn.reachable(0)
+    preds = fn.preds()
+    for h in sorted(reach0):
+        from_h = fn.reachable(h)
+        latches = [p for p in preds[h] if p in from_h and p in reach0]
+        if not latches:
+            continue
+        if not all(fn.dominates(h, l) and fn.succs(l) == [h] for l in latches):
+            continue
+        prefix = fn.reachable(0, stop=[h]) - {h}
+        if prefix & from_h:
+            continue
+        if any(fn.blocks[b]['t']['t'] != 'goto' for b in prefix):
+            continue
+        live = _live_in(fn, h)
+        if live is None or not all(_never_changes(fn, x, prefix) for x in live):
+            continue
+        for l in latches:
+            out[l] = h
+    return out
+
+
+def _may_calls_cut(fn, site_bb, cut):
+    """call sites on some entry -> site path that does not take an edge in `cut`"""
+    reach = fn.reachable(0)
+    preds = fn.preds()
+    back, work = set(), [site_bb]
+    while work:
+        b = work.pop()
+        if b in back:
+            continue
+        back.add(b)
+        work.extend(p for p in preds[b] if (p, b) not in cut)
+    return [c for c in fn.calls if c.bb in reach and c.bb in back]
+
+
 # ---- outcomes on frames ---------------------------------------------------------------------------------------------
 class Outcome2:
     """one leaf success outcome of the entry function.  `level` of an effect / decision is its frame: a tuple of
@@ -213,12 +395,20 @@ def outcomes2(E, fn, through, mapping=None, chain=(), stack=(), frame=(), entry=
             return None
         return g
 
-    for site in E.sites(fn):
+    # a loop that is a tail call in disguise: its back edges are sites ("called again"), see _RESTART_DOC
+    restarts = restart_loops(sl, fn)
+    cut = {(l, h) for l, h in restarts.items()}
+    for site in list(E.sites(fn)) + [_Site(fn, l, 'restart') for l in sorted(restarts)]:
         tail_call = site.call if site.kind == 'tail' else None
         tail_fns = prog.callee_fns(tail_call) if tail_call is not None else []
         # ---- own effects, one segment per call site ------------------------------------------------
         must_segs, may_segs = [], []
-        for c, forall in E.must_calls(fn, [site.bb]):
+        must_calls = E.must_calls(fn, [site.bb])
+        if site.kind == 'restart':
+            lc = fn.call_at(site.bb)
+            if lc is not None and not any(c is lc for c, _ in must_calls):
+                must_calls = must_calls + [(lc, None)]
+        for c, forall in must_calls:
             if c is tail_call:
                 continue
             effs = []
@@ -226,7 +416,7 @@ def outcomes2(E, fn, through, mapping=None, chain=(), stack=(), frame=(), entry=
             for e in effs:
                 e.level, e.level_bb = frame, c.bb
             must_segs.append((c, effs))
-        for c in E.may_calls(fn, [site.bb]):
+        for c in (_may_calls_cut(fn, site.bb, cut) if cut else E.may_calls(fn, [site.bb])):
             if c is tail_call:
                 continue
             effs = []
@@ -245,6 +435,8 @@ def outcomes2(E, fn, through, mapping=None, chain=(), stack=(), frame=(), entry=
             value = E.subst(sl._call_value(fn, tail_call, set(), 0), mapping)
         elif site.kind == 'ok':
             value = E.subst(sl._rvalue(fn, site.stmt, set(), 0, None), mapping)
+        elif site.kind == 'restart':
+            value = ('recursion', fn.path)
         else:
             value = ('tuple', ())
         # ---- private helpers this site depends on ------------------------------------------------------
